@@ -27,6 +27,9 @@ func (f *Frame) execCall(instr ssa.Instruction, c *ssa.CallCommon, st *State) *V
 		f.anchorsAfterCall(sc.Name(), st)
 		if sn := ShortName(sc); sn != "" && sn != sc.Name() {
 			f.anchorsAfterCall(sn, st)
+			if k := strings.Index(sn, "."); k >= 0 && strings.Count(sn, ".") >= 2 {
+				f.anchorsAfterCall(sn[k+1:], st)
+			}
 		}
 	} else if c.IsInvoke() {
 		f.anchorsAfterCall(ifaceMethodName(c), st)
@@ -74,6 +77,9 @@ func (f *Frame) execCallInner(instr ssa.Instruction, c *ssa.CallCommon, st *Stat
 		f.anchorsAtCall(instr, callee.Name(), st)
 		if sn := ShortName(callee); sn != "" && sn != callee.Name() {
 			f.anchorsAtCall(instr, sn, st)
+			if k := strings.Index(sn, "."); k >= 0 && strings.Count(sn, ".") >= 2 {
+				f.anchorsAtCall(instr, sn[k+1:], st)
+			}
 		}
 	}
 	if callee == nil {
@@ -740,7 +746,7 @@ func (u *Unit) keysForTypeSpecEmb(spec string, pkg *types.Package) ([]hk, [2]str
 			for i := 0; i < st.NumFields(); i++ {
 				if st.Field(i).Name() == parts[n] {
 					ft := st.Field(i).Type()
-					if !isTime(ft) {
+					if !isTime(ft) && !isOpaqueArr(ft) {
 						switch ft.Underlying().(type) {
 						case *types.Struct, *types.Array:
 							return u.fieldKeys(t, st.Field(i)), [2]string{structKey(t), parts[n]}
@@ -816,7 +822,7 @@ func (u *Unit) structKeys(t types.Type) []hk {
 
 func (u *Unit) fieldKeys(t types.Type, fld *types.Var) []hk {
 	ft := fld.Type()
-	if !isTime(ft) {
+	if !isTime(ft) && !isOpaqueArr(ft) {
 		switch x := ft.Underlying().(type) {
 		case *types.Struct:
 			ks := u.structKeys(ft)
